@@ -48,6 +48,10 @@ def sig_scenario(i, sig, option, phase, pty):
         label = "exec:0"
     elif phase == "after-exec":
         script += [P.DO("send", msg=P.B("exec", cb=True)), P.DO("sleep", us=40000), P.W("idle")]
+    if phase == "release-failed":
+        # the input terminal hangs up, then an Exec is requested: ReleaseTerminal fails half-way, the command is not run;
+        # the program is not "released" afterwards - signals count (for every option as when idle)
+        script += [P.DO("pty-hangup"), P.DO("sleep", us=30000), P.DO("send", msg=P.B("exec", cb=True)), P.DO("sleep", us=150000), P.W("idle")]
     if phase == "nested-release":
         # the application releases the terminal itself, an Exec happens meanwhile, the application restores it:
         # afterwards signals count again
@@ -72,6 +76,8 @@ def sig_scenario(i, sig, option, phase, pty):
         script += [P.DO("send", msg=P.U(42)), P.W("idle"), P.DO("kill") if swallowed else P.DO("quit")]
     script.append(P.W("returned"))
     inp = {"kind": "pty", "w": 80, "h": 24} if pty else {"kind": "pipe"}
+    if phase == "release-failed":
+        inp = {"kind": "ptyin"}
     s = P.scenario(i, script, opts=o, inp=inp, update=upd, isolate=True, watchdog_ms=4000)
     meta = {"kind": "signal", "sig": sig, "option": option, "phase": phase, "pty": pty, "ends": ends,
             "want": ("interrupted" if sig == "int" else "nil") if ends else ("killed" if swallowed else "nil")}
@@ -127,7 +133,7 @@ def gen(tier, rnd):
         x[0]["id"] = len(scs)
         scs.append(x[0])
         metas.append(x[1])
-    phases = ["idle", "update", "released", "after-exec", "released-then-idle", "swallowed-then-again", "nested-release"]
+    phases = ["idle", "update", "released", "after-exec", "released-then-idle", "swallowed-then-again", "nested-release", "release-failed"]
     for sig in ("int", "term"):
         for option in ("handler", "nosighandler", "nosignals"):
             for phase in phases:
